@@ -84,7 +84,8 @@ func (muxer *Muxer) Close() error {
 	}
 
 	muxer.closed = true
-	muxer.recvQueue.Signal()
+	// 入列 nil 而不是仅发信号：避免在关闭检查与等待之间丢失唤醒
+	muxer.recvQueue.Push(nil)
 	return nil
 }
 
